@@ -53,12 +53,7 @@ Definition last_index (key:Z) (T:list Z) : option Z := last_index_from key T 0 N
 
 (* r meets the spec for foreign keys F against target T with marker threshold INV *)
 Definition get_index_ok (INV:Z) (T F r:list Z) : Prop :=
-  length r = length F /\
-  forall k, (k < length F)%nat ->
-    match last_index (nth k F 0) T with
-    | Some i => nth k r 0 = i
-    | None => INV <= nth k r 0
-    end.
+  Forall2 (fun key v => match last_index key T with Some i => v = i | None => INV <= v end) F r.
 
 (* ---- join ---- *)
 (* first element of every maximal run of equal adjacent values *)
